@@ -124,6 +124,45 @@ class WordEval:
                 return mul(self.ev(e.args[0]), self.ev(e.args[1]))
             if fn in ("torch.inverse", "torch.linalg.inv") and len(e.args) == 1:
                 return inv(self.ev(e.args[0]))
+            if fn == "torch.einsum" and len(e.args) == 3 and isinstance(e.args[0], ast.Constant) and isinstance(e.args[0].value, str) and not e.keywords:
+                # a two-operand matrix contraction written in index notation: X?T Y?T, possibly transposed on output
+                spec = e.args[0].value.replace(" ", "")
+                try:
+                    ins, out = spec.split("->")
+                    x, y = [t.replace("...", "") for t in ins.split(",")]
+                    out = out.replace("...", "")
+                except ValueError:
+                    raise Uninterpretable("matrix expression %s" % src[:80])
+                shared = [c for c in x if c in y and c not in out]
+                if not (len(x) == len(y) == len(out) == 2 and len(shared) == 1 and len(set(x)) == 2 and len(set(y)) == 2):
+                    raise Uninterpretable("matrix expression %s" % src[:80])
+                c = shared[0]
+
+                def tr(w):
+                    if self.real_transpose:
+                        return adj(w)
+                    return tuple((n + "~T", a, i) for (n, a, i) in reversed(w))
+                xw, yw = self.ev(e.args[1]), self.ev(e.args[2])
+                fx = x[0] if x[1] == c else x[1]
+                fy = y[1] if y[0] == c else y[0]
+                pw = mul(xw if x[1] == c else tr(xw), yw if y[0] == c else tr(yw))
+                if out == fx + fy:
+                    return pw
+                if out == fy + fx:
+                    return tr(pw)
+                raise Uninterpretable("matrix expression %s" % src[:80])
+            if fn in ("torch.linalg.solve", "torch.linalg.solve_triangular") and len(e.args) == 2:
+                # solve(A, B) = A^-1 B; with left=False it solves X A = B, i.e. B A^-1 (`upper`/`unitriangular` only say how A is read)
+                left = True
+                for k in e.keywords:
+                    if k.arg == "left":
+                        if not isinstance(k.value, ast.Constant):
+                            raise Uninterpretable("matrix expression %s" % src[:80])
+                        left = bool(k.value.value)
+                    elif k.arg not in ("upper",):
+                        raise Uninterpretable("matrix expression %s" % src[:80])
+                a_, b_ = self.ev(e.args[0]), self.ev(e.args[1])
+                return mul(inv(a_), b_) if left else mul(b_, inv(a_))
             if fn in ("torch.linalg.cholesky", "torch.cholesky") and len(e.args) == 1:
                 w = self.ev(e.args[0])
                 name = "chol(%s)" % show(w).replace(" ", "*")
